@@ -21,6 +21,34 @@ def keep(p):
     return {"cols": [{k: c[k] for k in ("n", "ty", "size", "nullable", "df")} for c in p["cols"]]}
 
 
+def growth_extras(seed, thorough):
+    """DESIGN 3.10 item 1 (outside C01's core fragment, so never a verdict): the other column options the grammar folds, in every order
+    with each other and with the core options; reported in the evidence and in OBSERVATIONS.md"""
+    opts = [(T.EXTRAS[x][0], x) for x in T.EXTRAS] + [("null", "notnull"), ("default", "d1"), ("unique", "u"), ("pk", "pk")]
+    g = F.mc(F.consts(WithHist="TRUE", TypeForms='{"vc"}', Opts=F.optset(*opts), MaxOpts=3 if thorough else 2), "growth: extra column options")
+    tasks = [(T.render(b["hist"], seed) + "\n", {}, {}) for b in g.beh]
+    outs, _ = C.parse_many(tasks)
+    cats = {}
+    for b, tk, o in zip(g.beh, tasks, outs):
+        probs = []
+        tabs = [e for e in o[1] if "table_name" in e] if o[0] == "ok" else []
+        if len(tabs) != 1:
+            probs = ["table lost / raised"]
+        else:
+            exp = keep(T.expected(b["obs"], b["open"]))
+            if keep(T.project_table(tabs[0], b["open"])) != exp:
+                probs.append("core fields differ")
+            for i, c in enumerate(tabs[0]["columns"]):
+                for x in b["obs"]["cols"][i]["ex"]:
+                    gv = c.get(T.EXTRAS[x][2])
+                    if (list(gv) if isinstance(gv, tuple) else gv) != T.EXTRAS[x][3]:
+                        probs.append("extra option not reported: " + x)
+        for p in probs:
+            k = p + " | " + " ".join(a for a in F.abstract(b) if "=" in a)
+            cats[k] = cats.get(k, 0) + 1
+    return {"behaviours": len(g.beh), "states": g.distinct, "deviating": sum(cats.values()), "categories (first 12)": dict(sorted(cats.items())[:12])}, g
+
+
 def run(tier, seed):
     t0 = time.time()
     V = C.Verdict(PID)
@@ -75,6 +103,10 @@ def run(tier, seed):
         total += n
         uniq += nu
         cov["generation"].append({"config": "simulation (4 columns, <=7 options)", "behaviours": len(ub), "renderings": n, "mismatches": nbad})
+    gr, gg = growth_extras(seed, thorough)
+    states += gg.distinct
+    trans += gg.generated
+    cov["growth_extra_column_options (not a verdict)"] = gr
     rc = V.finish()
     cov.update({"states": states, "transitions": trans, "traces_validated_against_impl": total, "distinct_real_parses": uniq,
                 "seeds": seeds, "samples": [sample], "exhaustive": True})
